@@ -61,6 +61,7 @@ def touchesB (g : FName) : FsOp → Bool
   | .write f _ => g == f
   | .close _ => false
   | .replace s t => g == s || g == t
+  | .unlink f => g == f
 
 theorem touchesB_iff (g : FName) (o : FsOp) : touchesB g o = true ↔ touches o g := by
   cases o <;> simp [touchesB, touches]
@@ -96,6 +97,9 @@ theorem run_proj (g : FName) (ops : List FsOp) (hdest : ∀ s t, FsOp.replace s 
         cases hg : d g with
         | none => simp [← h, hg]
         | some b => simp [set_same]
+      | unlink f =>
+        simp only [touchesB, beq_iff_eq] at ht; subst ht
+        simp [applyOp, set_same]
     · rw [List.filter_cons_of_neg ht, run_cons]
       have : ¬ touches o g := fun hh => ht ((touchesB_iff g o).mpr hh)
       exact ih hd' _ _ (by rw [applyOp_frame _ _ _ this]; exact h)
